@@ -187,15 +187,17 @@ def judge_include_bytes(asm, acc, case):
     root = tempfile.mkdtemp(prefix='bbv-c10-')
     old = os.getcwd()
     try:
-        srcdir = os.path.join(root, 'proj', 'src')
-        incdir = os.path.join(root, 'proj', 'assets')
+        srcdir = os.path.join(root, 'Proj', 'src')
+        incdir = os.path.join(root, 'Proj', 'Assets')
         other = os.path.join(root, 'elsewhere')
         decoy = os.path.join(root, 'decoy')
         for d in (srcdir, incdir, other, decoy):
             os.makedirs(d)
         size = case['size']
         content = bytes(rng.randrange(256) for _ in range(size))
-        name = 'blob.bin'
+        name = ['blob.bin', 'Blob.BIN', 'FONT_8x8.bin', 'data.Bin'][size % 4 if size < 4 else (size // 7) % 4]
+        if name != name.lower():
+            open(os.path.join(decoy, name.lower()), 'wb').write(b'lower-case twin')
         where = srcdir if case['loc'] == 'adjacent' else incdir
         open(os.path.join(where, name), 'wb').write(content)
         dsize = size if case['decoy'] == 'same' else size + 3
